@@ -82,6 +82,14 @@ def anchor_modules(E: Engine, pid: str) -> set:
     return {m.name for m in E.P.modules.values() if m.relpath in files}
 
 
+ZERO_LEGAL_LIMITS = {"bottom_detuning", "total_bottom_detuning", "fixed_retarget_t", "min_retarget_interval", "max_abs_detuning", "max_amp"}
+ZERO_TRUTHY_ALLOWED = {
+    "_Schedule.add_target|fixed_retarget_t": "`if fixed_retarget_t: delta = max(delta, fixed_retarget_t)`: for 0 the skipped statement is max(delta, 0) == delta (delta >= 0), the same result",
+    "Channel.__str__|max_abs_detuning": "text only: the unit suffix of the printed limit",
+    "Channel.__str__|max_amp": "text only: the unit suffix of the printed limit",
+    "DMM.__post_init__|bottom_detuning": "`x and x > 0`: 0 is not > 0, the verdict is the same with `is not None`",
+    "DMM.__post_init__|total_bottom_detuning": "`x and x > 0`: 0 is not > 0, the verdict is the same with `is not None`",
+}
 STORED_ALLOWED = {
     "AbstractArray.__init__|_array": "the wrapper itself: AbstractArray is documented as a view over the given array (callers that must own their data copy it)",
     "Observable.__init__|evaluation_times": "a caller-given sequence of relative times kept by reference and only read (membership / iteration); documented as Sequence[float]",
@@ -343,6 +351,47 @@ def check(E: Engine, rep: Report, pid: str, rule: str = "NET", extra_modules: tu
                 rep.excepted(rule, key, ex, E.where(f, st))
             else:
                 rep.violation(rule, key, f"{f.short} keeps the parameter `{v.id}` ({anns[v.id][:60]}) in self.{tgt} as `{ast.unparse(val)[:60]}`: no copy is made (AbstractArray / np.asarray / cast share the caller's array), so an in-place edit of the caller's object afterwards changes this object", E.where(f, st))
+    # ZERO: an Optional numeric limit for which 0 is a legal, distinct value is asked "is it defined?" with `is not None`.
+    # Its truth value treats the limit 0 as undefined (the class of the repaired `if bottom_detuning and ...` defect).
+    n_zero = 0
+    for f in E.P.all_functions():
+        if f.kind == "overload" or f.module.name not in mods:
+            continue
+        loc = {}
+        for st in ast.walk(f.node):
+            if isinstance(st, ast.Assign) and len(st.targets) == 1 and isinstance(st.targets[0], ast.Name):
+                v = st.value
+                while isinstance(v, ast.Call) and ast.unparse(v.func) == "cast" and len(v.args) == 2:
+                    v = v.args[1]
+                if isinstance(v, ast.Attribute) and v.attr in ZERO_LEGAL_LIMITS:
+                    loc[st.targets[0].id] = v.attr
+        tests = []
+        for x in ast.walk(f.node):
+            if isinstance(x, (ast.If, ast.IfExp, ast.While)):
+                tests.append(x.test)
+            elif isinstance(x, ast.BoolOp):
+                tests.extend(x.values)
+        seen_z = set()
+        for tst in tests:
+            stack = [tst]
+            while stack:
+                e = stack.pop()
+                if isinstance(e, ast.BoolOp):
+                    stack += e.values
+                elif isinstance(e, ast.UnaryOp) and isinstance(e.op, ast.Not):
+                    stack.append(e.operand)
+                else:
+                    fld = e.attr if isinstance(e, ast.Attribute) and e.attr in ZERO_LEGAL_LIMITS else loc.get(e.id) if isinstance(e, ast.Name) else None
+                    if fld is None or (fld, e.lineno) in seen_z:
+                        continue
+                    seen_z.add((fld, e.lineno))
+                    n_zero += 1
+                    key = f"{f.short}|{fld}|defined-tested-with-is-not-None"
+                    ex = ZERO_TRUTHY_ALLOWED.get(f"{f.short}|{fld}")
+                    if ex is not None:
+                        rep.excepted(rule, key, ex, E.where(f, e))
+                    else:
+                        rep.violation(rule, key, f"{f.short} decides whether the limit `{fld}` is defined by its truth value (`{ast.unparse(e)[:40]}` in a condition): {fld} = 0 is a legal limit and is treated as undefined, so the limit is ignored exactly where it is tightest", E.where(f, e))
     # CACHED: a public member computed once (`cached_property`, `lru_cache`, `cache`) hands the very same object to every
     # caller; that is fine for immutable values only (on the tree: tuple/bool results; the cached containers are private)
     n_cached = 0
@@ -389,4 +438,4 @@ def check(E: Engine, rep: Report, pid: str, rule: str = "NET", extra_modules: tu
             visit(n.test, False)
     if n_par < 5:
         rep.error(f"UNUSED: only {n_par} parameters inspected for {pid} (anchor modules not found?)")
-    return {"parameters_inspected": n_par, "locals_inspected": n_loc, "post_loop_reads": n_leak, "array_rejections": n_q, "direct_returns": n_dir, "cached_public_members": n_cached, "module_table_returns": n_glob, "stored_parameters": n_st}
+    return {"parameters_inspected": n_par, "locals_inspected": n_loc, "post_loop_reads": n_leak, "array_rejections": n_q, "direct_returns": n_dir, "cached_public_members": n_cached, "module_table_returns": n_glob, "stored_parameters": n_st, "zero_legal_limit_tests": n_zero}
